@@ -127,7 +127,6 @@ static void *upipe_pthread_start(void *_pthread_ctx)
         uprobe_err_va(pthread_ctx->uprobe_pthread_upump_mgr, NULL,
                       "unable to attach xfer (%s)", ubase_err_str(err));
 
-    uprobe_release(pthread_ctx->uprobe_pthread_upump_mgr);
     upipe_mgr_release(pthread_ctx->xfer_mgr);
 
     err = upump_mgr_run(upump_mgr, pthread_ctx->mutex);
@@ -139,6 +138,7 @@ static void *upipe_pthread_start(void *_pthread_ctx)
         uprobe_err_va(pthread_ctx->uprobe_pthread_upump_mgr, NULL,
                       "upump manager couldn't run (%s)", ubase_err_str(err));
 
+    uprobe_release(pthread_ctx->uprobe_pthread_upump_mgr);
     upump_mgr_release(upump_mgr);
 
 upipe_pthread_start_abort:
